@@ -15,6 +15,8 @@ STD_CELLS = [
     ("flat-direction-prime-prior", "G2f", {"reparameterisations": {"x0": {"reparameterisation": "rescaletobounds", "rescale_bounds": [0.0, 1.0], "prior": "uniform"},
                                                                   "x1": {"reparameterisation": "rescaletobounds", "rescale_bounds": [0.0, 1.0], "prior": "uniform"}}}),
     ("flat-direction-default", "G2f", {}),
+    ("bimodal-default", "Bi2", {"max_iteration": 1200}),
+    ("bimodal-clustering-inversion", "Bi2", {"flow_proposal_class": "ClusteringFlowProposal", "reparameterisations": {"x0": "inversion", "x1": "default"}, "max_iteration": 1200}),
     ("ties-nlive50", "Tie2", {"nlive": 50, "stopping": 0.5}),
     ("ties-analytic", "Tie2", {"nlive": 100, "stopping": 0.5, "analytic_priors": True}),
     ("gw-proposal", "GW5", {"flow_proposal_class": "GWFlowProposal", "max_iteration": 500}),
@@ -57,14 +59,14 @@ STD_CELLS = [
     ("tolerance-loose", "G2u", {"stopping": 0.5}),
 ]
 
-QUICK_STD = ["default-G2u", "default-G4u", "nonuniform-analytic", "nonuniform-rejection-box-draws", "constrained-prior", "constrained-prior-leaky-uninformed", "flat-direction-prime-prior", "ties-nlive50", "ties-analytic", "gw-proposal", "clustering", "augmented-marginalised", "augmented", "no-uninformed",
+QUICK_STD = ["default-G2u", "default-G4u", "nonuniform-analytic", "nonuniform-rejection-box-draws", "constrained-prior", "constrained-prior-leaky-uninformed", "flat-direction-prime-prior", "bimodal-default", "ties-nlive50", "ties-analytic", "gw-proposal", "clustering", "augmented-marginalised", "augmented", "no-uninformed",
              "latent-nball", "latent-gaussian", "latent-flow", "radius-worst-point", "radius-min-max", "truncate-log-q", "accumulate-weights", "drawsize-small",
              "reparam-logit", "reparam-inversion-split", "reparam-inversion-duplicate", "reparam-angle", "flow-maf", "flow-nsf", "nlive-10", "nlive-300",
              "memory", "reset-weights", "uninformed-50", "shrinkage-t", "pool-2", "capped-300", "prior-sampling", "tolerance-loose"]
 
 
 GEN_AXES = dict(
-    model=["G2u", "G2n", "G4u", "Tie2", "G2r", "G3u"],
+    model=["G2u", "G2n", "G4u", "Tie2", "G2r", "G3u", "G2c", "G2f", "Bi2"],
     flow_proposal_class=[None, None, "AugmentedFlowProposal", "ClusteringFlowProposal"],
     latent=[{}, {}, {"latent_prior": "uniform_nball"}, {"latent_prior": "uniform_nball", "constant_volume_mode": False}, {"constant_volume_mode": False},
             {"constant_volume_mode": False, "fixed_radius": 2.5}, {"latent_prior": "gaussian", "constant_volume_mode": False}, {"latent_prior": "flow", "constant_volume_mode": False},
@@ -169,6 +171,7 @@ INS_CELLS = [
     ("ins-pool", "G2u", {"n_pool": 2}, None),
     ("ins-constrained-prior", "G2c", {}, None),
     ("ins-constrained-prior-strict-resume", "G2c", {"strict_threshold": True, "save_log_q": True}, [2]),
+    ("ins-bimodal", "Bi2", {"nlive": 400, "min_samples": 100}, None),
     ("ins-gw5", "GW5", {"nlive": 400, "min_samples": 100, "max_iteration": 8}, None),
 ]
 
